@@ -933,7 +933,8 @@ def expect_text_edges(conv, ctx, got, ty, edges, what):
                      Counter((s, d) for (s, d, _w) in exp.elements())
                      else ":edges"),
              "%s: %s lists %s, the graph is %s"
-             % (ctx, what, sorted(got), sorted(exp.elements())))
+             % (ctx, what, sorted(got, key=repr),
+                sorted(exp.elements(), key=repr)))
 
 
 def t_edgelist(conv, ctx, n, edges, ty, var):
@@ -1679,8 +1680,8 @@ def _worker_chunk(task):
 
 def run_all(opt):
     global CASES
-    t00 = time.time()
-    exe = tool_build()
+    exe = tool_build()  # cached; a cold build (~2 min) is not charged to
+    t00 = time.time()   # the exploration deadline
     CASES = build_cases()
     th = opt.tier == "thorough"
     sel = [i for i, c in enumerate(CASES) if opt.case in c.name]
